@@ -133,7 +133,7 @@ fn op_s(nac: u8, with_time: bool) -> BoxedStrategy<Op> {
         prop_oneof![
             16 => sq,
             2 => other,
-            2 => (1u16..12).prop_map(|half_s| Op::Advance { half_s }),
+            2 => prop_oneof![10 => 1u16..12, 1 => prop_oneof![Just(239u16), Just(241), Just(250), Just(1300), Just(14400)]].prop_map(|half_s| Op::Advance { half_s }),
             1 => (0u8..RX.len() as u8).prop_map(|site| Op::MoveRx { site }),
             1 => prop_oneof![8 => 0u64..5, 1 => prop_oneof![Just(u64::MAX), Just(1u64 << 63), Just(i64::MAX as u64), Just(1u64 << 40), Just(u32::MAX as u64 + 1)]].prop_map(|t| Op::Prune { t }),
         ]
@@ -562,8 +562,12 @@ pub fn run_history(s: &Scenario, only: Option<u8>, trace: bool) -> RunOut {
                 }
             }
         }
-        // invariants over every record, after every op
-        invariants(&planes, &model, &mut fails);
+        // invariants over every record, after every op (the derived views must not panic either)
+        if catch_unwind(AssertUnwindSafe(|| invariants(&planes, &model, &mut fails))).is_err() {
+            let m = format!("a derived view of the tracker (details / position list / text form) panicked at {}", last_panic());
+            fails.push(("C14/views_panic".into(), m.clone()));
+            fails.push(("C01/panic/tracker/views".into(), m));
+        }
         if !fails.is_empty() {
             // the model follows the implementation where they disagree, so that the rest of the
             // history is still compared (each failure is reported once, at the op that caused it)
